@@ -84,6 +84,15 @@ add("K8", "C06", "open", "a field of object type selected without a sub-selectio
     "not repairable as a fix: the repository's own fixture tests/input_object_variables/input_object_variables_query.graphql relies on it",
     hazard="K8", symptoms=[r"^accepted E3: no-subselection"], engine="A", extra={"schema": BASE, "document": "query Q { me }\n", "rule": "E3", "label": "no-subselection@op:Q/me"})
 
+
+add("F1", "C17", "fixed", "fragment spread cycle without __typename on an interface / union overflowed the stack in the __typename search (SIGABRT)",
+    commit="51c05cf", engine="A")
+add("F2", "C08", "fixed", "a failing schema / query load poisoned the cache mutex: every later call in the process panicked with `cache is poisoned`",
+    commit="506a915", engine="A")
+add("F9", "C10", "fixed", "enum value `self` / `self_` / `Self` under normalization = \"rust\" became the invalid variant identifier `Self`",
+    commit="8635165", also=["C11"], engine="B-generated")
+add("F15", "C11", "fixed", "@oneOf member named `Self` was serialised as `Self_` (rename decided on the unescaped variant name)",
+    commit="024d01b", also=["C04"], engine="B-generated")
 out = os.path.join(os.path.dirname(os.path.dirname(os.path.abspath(__file__))), "known_findings.json")
 with open(out, "w") as f:
     json.dump({"comment": "written by tools/mk_known.py at authoring time; never written by a check", "findings": F}, f, indent=1)
